@@ -6,6 +6,7 @@ Model = Otel.C03.Model + Otel.C03.Carrier, Spec = Otel.C03.Spec + Otel.C03.SpecD
 import Otel.C03.LemmasCarrier
 import Otel.C03.LemmasAccept2
 import Otel.C03.LemmasTs
+import Otel.C03.LemmasJson
 namespace Otel.C03
 open Otel
 
@@ -209,6 +210,103 @@ theorem spanctx_with_frame (sc : SpanCtx) (op : ScOp) :
     exact withSampled_false sc.flags
   · simp only [withSampled, isSampled, if_true]
     exact withSampled_true sc.flags
+
+/-! ### identifiers: String / FromHex / MarshalJSON -/
+
+/-- `TraceIDFromHex(t.String()) = t` and `SpanIDFromHex(s.String()) = s` for every identifier that is not all zero; for
+the all-zero identifier the parse is an error (n = 32 with 16 bytes, n = 16 with 8 bytes). Conversely whatever the
+parsers return spells the input: `FromHex(h) = t → t.String() = h`. -/
+theorem id_string_fromhex (n : Nat) (b : Bytes) (hl : 2 * b.length = n) :
+    idFromHex n (idString b) = (if allZero b then none else some b) ∧
+    (∀ h t, idFromHex n h = some t → idString t = h) :=
+  ⟨id_fromHex_string n b hl, fun h t hi => ((idFromHex_iff n h t).mp hi).2⟩
+
+/-- an identifier string with an upper-case hex digit, any byte outside 0-9a-f (multi-byte runes included), the wrong
+length, or only '0' digits is rejected -/
+theorem id_fromhex_rejects (n : Nat) (h : Bytes) :
+    ((∃ c ∈ h, W3C.hexdiglc c = false) → idFromHex n h = none) ∧
+    ((∃ c ∈ h, 0x41 ≤ c.toNat ∧ c.toNat ≤ 0x46) → idFromHex n h = none) ∧
+    (h.length ≠ n → idFromHex n h = none) ∧
+    (W3C.allZeroDigits h = true → idFromHex n h = none) := by
+  have key : ∀ t, idFromHex n h = some t → idHexOK n h = true := fun t hi => ((idFromHex_iff n h t).mp hi).1
+  have none_of : idHexOK n h = false → idFromHex n h = none := by
+    intro hf
+    cases hi : idFromHex n h with
+    | none => rfl
+    | some t => rw [key t hi] at hf; cases hf
+  refine ⟨?_, ?_, ?_, ?_⟩
+  · rintro ⟨c, hc, hlow⟩
+    apply none_of
+    simp only [idHexOK, W3C.hexField, Bool.and_eq_false_iff]
+    left; right
+    rw [List.all_eq_false]
+    exact ⟨c, hc, by simp [hlow]⟩
+  · rintro ⟨c, hc, h1, h2⟩
+    apply none_of
+    simp only [idHexOK, W3C.hexField, Bool.and_eq_false_iff]
+    left; right
+    rw [List.all_eq_false]
+    refine ⟨c, hc, ?_⟩
+    simp only [W3C.hexdiglc, Bool.not_eq_true, Bool.or_eq_false_iff, Bool.and_eq_false_iff, decide_eq_false_iff_not]
+    omega
+  · intro hne
+    apply none_of
+    simp only [idHexOK, W3C.hexField, Bool.and_eq_false_iff]
+    left; left
+    simpa using hne
+  · intro hz
+    apply none_of
+    simp [idHexOK, hz]
+
+/-- `MarshalJSON` of TraceID, SpanID, TraceFlags, TraceState (and so of every string field of SpanContext's JSON) is
+faithful: the reference JSON string decoder (RFC 8259) returns exactly the `String()` form, for every byte string the
+model's escaper is applied to; in particular the escaping is injective. -/
+theorem json_string_roundtrip (s : Bytes) :
+    jsonDecode (jsonString s) = some s ∧ (∀ s', jsonString s' = jsonString s → s' = s) := by
+  refine ⟨jsonDecode_string s, fun s' h => ?_⟩
+  have h1 := jsonDecode_string s'
+  rw [h, jsonDecode_string s] at h1
+  exact (Option.some.inj h1).symm
+
+/-! ### the trace flags other than "sampled" -/
+
+/-- What happens to the flag bits other than the sampled bit (the statement speaks of the "sampled flag" only):
+`Inject` writes only the sampled bit (the two flag digits of the traceparent spell `flags & 0x01`); whatever `Extract`
+accepts - any version, any flag byte - yields flags with every other bit cleared; so the round trip returns the
+flags unchanged exactly when no other bit was set. -/
+theorem flags_other_bits_dropped :
+    (∀ sc tp tsh, sc.wf = true → inject sc = some (tp, tsh) → (tp.drop 53).take 2 = hexEncode [sc.flags &&& 0x01]) ∧
+    (∀ h t sc, extract h t = some sc → sc.flags &&& 0xfe = 0) ∧
+    (∀ sc, sc.wf = true → sc.isValid = true → TSInv sc.ts →
+      ∃ tp tsh sc', inject sc = some (tp, tsh) ∧ extract tp (tsh.getD []) = some sc' ∧
+        sc'.flags = sc.flags &&& 0x01 ∧ (sc'.flags = sc.flags ↔ sc.flags &&& 0xfe = 0)) := by
+  refine ⟨?_, ?_, ?_⟩
+  · intro sc tp tsh hwf hinj
+    simp only [SpanCtx.wf, Bool.and_eq_true, beq_iff_eq] at hwf
+    unfold inject at hinj
+    split at hinj
+    · simp at hinj
+    · simp only [Option.some.injEq, Prod.mk.injEq] at hinj
+      rw [← hinj.1]
+      have hpos := enc_positions [0x30, 0x30] (hexEncode sc.tid) (hexEncode sc.sid) (hexEncode [sc.flags &&& 0x01]) []
+        rfl (by rw [hexEncode_length]; omega) (by rw [hexEncode_length]; omega) (by rw [hexEncode_length]; rfl)
+      simpa using hpos.2.2.1
+  · intro h t sc he
+    obtain ⟨tid, sid, o, _, _, _, _, rfl⟩ := extract_some h t sc he
+    exact (and1_facts o).1
+  · intro sc hwf hv hts
+    obtain ⟨tp, tsh, hinj, hex⟩ := extract_inject sc hwf hv hts
+    exact ⟨tp, tsh, _, hinj, hex, rfl, (and1_facts sc.flags).2⟩
+
+/-! ### degenerate composites -/
+
+/-- `NewCompositeTextMapPropagator()` with zero members does nothing: Inject leaves the carrier, Extract the context,
+Fields is empty; with one member it is that member. -/
+theorem composite_empty_and_singleton {β C : Type} (p : Propagator β C) (ctx : Ctx β) (c : C) :
+    compInject ([] : List (Propagator β C)) ctx c = c ∧ compExtract ([] : List (Propagator β C)) ctx c = ctx ∧
+    compFields ([] : List (Propagator β C)) = [] ∧
+    compInject [p] ctx c = p.inject ctx c ∧ compExtract [p] ctx c = p.extract ctx c :=
+  ⟨rfl, rfl, rfl, rfl, rfl⟩
 
 /-! ### the accepted language of the traceparent parser -/
 
